@@ -13,7 +13,7 @@ use crate::props::sched::POOL_SIZES;
 use crate::report::*;
 use crate::rng::{mix, Rng};
 
-const PROFILES: [Profile; 11] = [
+const PROFILES: [Profile; 12] = [
     Profile::SparseWide,
     Profile::Dense,
     Profile::Funnel,
@@ -25,6 +25,7 @@ const PROFILES: [Profile; 11] = [
     Profile::Mixed,
     Profile::Tiny,
     Profile::Huge,
+    Profile::WideStage,
 ];
 
 const CALLS: [DMode; 7] = [DMode::Dispatch, DMode::Dispatch, DMode::Par, DMode::Seq, DMode::SeqTl, DMode::TlOnly, DMode::RunNow];
@@ -32,7 +33,7 @@ const CALLS: [DMode; 7] = [DMode::Dispatch, DMode::Dispatch, DMode::Par, DMode::
 fn case(rng: &mut Rng, pools: &mut Pools, rep: &mut Report, case_no: u64) {
     let profile = *rng.pick(&PROFILES);
     let mut c = cfg_for(profile, rng);
-    if profile != Profile::Huge && profile != Profile::Funnel {
+    if profile != Profile::Huge && profile != Profile::Funnel && profile != Profile::WideStage {
         c.tl = (0, 3);
     }
     if profile == Profile::Batchy {
@@ -235,7 +236,7 @@ fn case_async(rng: &mut Rng, pools: &mut Pools, rep: &mut Report, case_no: u64) 
             return;
         }
     };
-    let mut ad = b.build_async(full_world());
+    let mut ad = b.build_async(crate::res::full_world_with(plan.slots_used().into_iter()));
     ctx.set_mode(Mode::Quiet);
     let per = expected_counts(&plan, DMode::Par, n_uids);
     let tls: Vec<u32> = plan.tls().iter().map(|t| t.uid).collect();
@@ -317,6 +318,107 @@ fn case_async(rng: &mut Rng, pools: &mut Pools, rep: &mut Report, case_no: u64) 
     }
 }
 
+/// A `MultiDispatcher` whose `plan()` asks for a number of inner dispatches at a counter-width
+/// boundary: the systems of the batch run exactly that many times per controller run.
+fn case_many_rounds(rng: &mut Rng, pools: &mut Pools, rep: &mut Report, case_no: u64) {
+    use crate::plan::*;
+    use crate::res::Slot;
+    let k = *rng.pick(&[255u32, 256, 257, 65_535, 65_536, 65_536, 65_537]);
+    let sl = |rng: &mut Rng| Slot::new(rng.below(crate::res::NTYPES), rng.below(crate::res::NDYN));
+    let n_inner = rng.range(1, 2);
+    let mut uid = 1u32;
+    let mut next = || {
+        uid += 1;
+        uid - 1
+    };
+    let mut items = Vec::new();
+    if rng.chance(1, 2) {
+        let u = next();
+        items.push(Item::Sys(SysSpec { uid: u, name: format!("s{}", u), deps: vec![], reads: vec![sl(rng)], writes: vec![], time: 3, kind: Kind::Dyn }));
+    }
+    let bu = next();
+    let inner = Plan {
+        items: (0..n_inner)
+            .map(|_| {
+                let u = next();
+                Item::Sys(SysSpec { uid: u, name: format!("s{}", u), deps: vec![], reads: vec![], writes: vec![sl(rng)], time: 3, kind: Kind::Dyn })
+            })
+            .collect(),
+    };
+    items.push(Item::Batch(BatchSpec { uid: bu, name: format!("s{}", bu), deps: vec![], ctl_menu: 0, k, multi: true, time: 3, inner }));
+    if rng.chance(1, 2) {
+        let u = next();
+        items.push(Item::Sys(SysSpec { uid: u, name: String::new(), deps: vec![], reads: vec![], writes: vec![sl(rng)], time: 2, kind: Kind::Dyn }));
+    }
+    let plan = Plan { items };
+    let pool_size = rng.range(1, 4);
+    let pool = pools.get(pool_size);
+    let mut inst = match build(&plan, Some(&pool), pool_size, 64) {
+        Ok(i) => i,
+        Err(e) => {
+            rep.inconclusive += 1;
+            rep.notes.push(format!("case {}: {}", case_no, e));
+            return;
+        }
+    };
+    rep.evaluations += 1;
+    rep.metric("many_round_batches", 1);
+    rep.metric_max("inner_dispatches_per_controller_run", k as i64);
+    let n_uids = plan.n_uids();
+    let mut expected = vec![0u32; n_uids];
+    for _ in 0..rng.range(1, 2) {
+        let m = *rng.pick(&[DMode::Dispatch, DMode::Par, DMode::Seq, DMode::RunNow]);
+        for (a, b) in expected.iter_mut().zip(&expected_counts(&plan, m, n_uids)) {
+            *a += *b;
+        }
+        if let Some(p) = inst.run_quiet(m) {
+            rep.violation("call_panicked", &format!("{} of a plan with a MultiDispatcher batch of {} rounds panicked: {}", m.name(), k, p), case_no, J::obj().set("plan", plan.to_json()));
+            return;
+        }
+        let got = inst.ctx.run_counts();
+        if let Some(u) = (0..n_uids).find(|&u| got[u] != expected[u]) {
+            rep.violation(
+                "count_mismatch:many_rounds",
+                &format!("MultiDispatcher batch whose plan() asks for {} rounds: after {} system u{} has run {} times, the count model says {}", k, m.name(), u, got[u], expected[u]),
+                case_no,
+                J::obj().set("plan", plan.to_json()).set("pool", pool_size),
+            );
+            return;
+        }
+    }
+    rep.nontrivial(mix(plan.hash(), k as u64));
+}
+
+/// One dispatcher, more than 2^16 calls in a row, the count model after every call.
+fn case_soak(rng: &mut Rng, pools: &mut Pools, rep: &mut Report, case_no: u64) {
+    let mut c = cfg_for(if rng.chance(1, 3) { Profile::Batchy } else { Profile::Tiny }, rng);
+    c.n = (2, 5);
+    c.tl = (0, 2);
+    c.max_batches = 1;
+    c.depth_left = c.depth_left.min(1);
+    let plan = gen_with(rng, &c);
+    let pool_size = rng.range(1, 4);
+    let pool = pools.get(pool_size);
+    let mut inst = match build(&plan, Some(&pool), pool_size, 64) {
+        Ok(i) => i,
+        Err(_) => {
+            rep.inconclusive += 1;
+            return;
+        }
+    };
+    rep.evaluations += 1;
+    let m = *rng.pick(&[DMode::Dispatch, DMode::Par, DMode::Seq, DMode::RunNow, DMode::SeqTl]);
+    let n = 65_536 + rng.range(2, 40);
+    rep.metric("soak_histories", 1);
+    match soak(&mut inst, m, n) {
+        Some((i, msg)) => rep.violation("count_mismatch:long_history", &msg, case_no, J::obj().set("plan", plan.to_json()).set("pool", pool_size).set("calls", i + 1)),
+        None => {
+            rep.metric("soak_dispatches", n as i64);
+            rep.nontrivial(mix(plan.hash(), 0x50a6 + n as u64));
+        }
+    }
+}
+
 pub fn run(args: &Args) -> i32 {
     let mut rep = Report::new(args);
     let mut pools = Pools::new();
@@ -333,6 +435,14 @@ pub fn run(args: &Args) -> i32 {
         #[cfg(feature = "parallel")]
         if c % 5 == 4 {
             guard_case(&mut rep, c, |rep| case_async(&mut rng, &mut pools, rep, c));
+            continue;
+        }
+        if c % 500 == 7 {
+            guard_case(&mut rep, c, |rep| case_soak(&mut rng, &mut pools, rep, c));
+            continue;
+        }
+        if c % 250 == 8 {
+            guard_case(&mut rep, c, |rep| case_many_rounds(&mut rng, &mut pools, rep, c));
             continue;
         }
         guard_case(&mut rep, c, |rep| case(&mut rng, &mut pools, rep, c));
